@@ -27,6 +27,7 @@ import (
 	"io"
 	"os"
 	"strconv"
+	"strings"
 	"syscall"
 	"unsafe"
 
@@ -236,13 +237,66 @@ func c20RunOut(f []string) string {
 	return fmt.Sprintf("ok kind=%s piped=%s size=%s %s", kind, piped, size, out)
 }
 
-// c20GenOut: the `cli` cases
+// c20HistC: a history WITH Close() calls in the middle for a screen of `height` rows: after d Closes every update lands
+// d rows lower (physical line = line + d, Lean `physHist`); updates mostly go to physical lines that are still on the
+// screen (`ReachUpd`), sometimes to one that has scrolled off.
+func c20HistC(r *Rand, width, height int, trim bool) string {
+	n := 2 + r.Intn(12)
+	d, m := 0, 0 // Closes so far, largest physical line
+	var items []string
+	for i := 0; i < n; i++ {
+		if r.Chance(1, 4) {
+			items = append(items, "c")
+			d++
+			m++
+			continue
+		}
+		lo := m - (height - 1)
+		if lo < d {
+			lo = d
+		}
+		hi := m + 2
+		p := lo
+		if hi > lo {
+			p = lo + r.Intn(hi-lo+1)
+		}
+		if r.Chance(1, 12) {
+			p = d + r.Intn(m-d+1) // anywhere, possibly scrolled off
+		}
+		if p > m {
+			m = p
+		}
+		vis := r.Intn(width + 3)
+		if !trim && vis > width {
+			vis = width
+		}
+		items = append(items, fmt.Sprintf("%d:%s", p-d, HexS(c20Text(r, vis, r.Chance(1, 25)))))
+	}
+	return strings.Join(items, ",")
+}
+
+// c20GenOut: the `cli` cases, and the live writer with Close() calls in the middle of the history
 func c20GenOut(r *Rand, tier string) []string {
 	n := 160
 	if tier == "thorough" {
 		n = 6000
 	}
 	var out []string
+	for i := 0; i < n; i++ {
+		width := Pick(r, []int{1, 2, 3, 4, 5, 8, 10, 20, 40})
+		trim := r.Chance(2, 3)
+		tb := 0
+		if trim {
+			tb = 1
+		}
+		height := Pick(r, []int{2, 3, 4, 5, 8, 12, 30})
+		row0 := r.Intn(height)
+		if r.Chance(1, 3) {
+			out = append(out, fmt.Sprintf("term %d %d %s", width, tb, c20HistC(r, width, 30, trim)))
+		} else {
+			out = append(out, fmt.Sprintf("termh %d %d %d %d %s", width, height, row0, tb, c20HistC(r, width, height, trim)))
+		}
+	}
 	kinds := []string{"pipe", "pipe", "file", "null", "closed", "pty", "pty", "pty"}
 	for i := 0; i < n; i++ {
 		kind := Pick(r, kinds)
